@@ -761,7 +761,8 @@ func stressHedge(seed int64, scale int) int {
 				if snapshot[k] == nil {
 					continue
 				}
-				if k != winner && !snapshot[k].IsCanceled() && !finished[k].Load() {
+				if k != winner && !snapshot[k].IsCanceled() {
+					// also an attempt that has finished already: its context is what releases what it obtained (an HTTP response)
 					v.add("a losing attempt was not cancelled when the call returned")
 				}
 			}
@@ -1061,6 +1062,32 @@ func stressFuture(seed int64, scale int) int {
 				}
 			}
 		}
+	}
+	// the first cancellation is the one reported: an async execution under retry(timeout(fn)) / hedge(timeout(fn)) is cancelled
+	// through its ExecutionResult while an attempt runs; the attempt ignores the cancellation for longer than the Timeout's limit,
+	// so the Timeout fires afterwards as well. Every reader still gets ErrExecutionCanceled.
+	for i := 0; i < 6*scale; i++ {
+		to := timeout.With[int](time.Millisecond)
+		var ps []failsafe.Policy[int]
+		if i%2 == 0 {
+			ps = []failsafe.Policy[int]{retrypolicy.Builder[int]().WithMaxRetries(2).Build(), to}
+		} else {
+			ps = []failsafe.Policy[int]{hedgepolicy.BuilderWithDelay[int](time.Second).Build(), to}
+		}
+		entered := make(chan struct{}, 4)
+		r := failsafe.NewExecutor[int](ps...).GetWithExecutionAsync(func(e failsafe.Execution[int]) (int, error) {
+			entered <- struct{}{}
+			<-e.Canceled()
+			time.Sleep(4 * time.Millisecond) // does not return before the time limit has passed as well
+			return 0, errX
+		})
+		<-entered
+		r.Cancel()
+		_, err := r.Get()
+		if !errors.Is(err, failsafe.ErrExecutionCanceled) {
+			v.add(fmt.Sprintf("async execution cancelled during an attempt that then also ran into its Timeout reported %v, not ErrExecutionCanceled (stack %d)", err, i%2))
+		}
+		v.count("cancel-then-timeout")
 	}
 	// an executor is reusable: executions on it are independent of what happened to earlier ones. One executor (fallback around a
 	// retry policy, bound to a context) runs an async execution that is cancelled through its ExecutionResult, a second one that
@@ -1479,6 +1506,24 @@ func stressShared(seed int64, scale int) int {
 			v.add(fmt.Sprintf("%d hedged HTTP attempts read a request body that was not the complete original (attempts of one request share a reader)", bad.Load()))
 		}
 		v.count("http-hedged-bodies")
+	}
+	// OnRateLimitExceeded fires exactly when a request was refused (C16): under a retry policy, an attempt the limiter refuses and
+	// a later attempt whose wait is ended by the caller's cancellation produce ONE event (D15: the cancelled wait used to report
+	// the stale ErrExceeded of the refused attempt)
+	for round := 0; round < 2; round++ {
+		var events atomic.Int32
+		rl15 := ratelimiter.SmoothBuilderWithMaxRate[int](100 * time.Millisecond).WithMaxWaitTime(70 * time.Millisecond).
+			OnRateLimitExceeded(func(failsafe.ExecutionEvent[int]) { events.Add(1) }).Build()
+		rl15.TryAcquirePermit()
+		rp15 := retrypolicy.Builder[int]().WithMaxRetries(3).WithDelay(50 * time.Millisecond).Build()
+		ctx, cancel := context.WithCancel(context.Background())
+		go func() { time.Sleep(75 * time.Millisecond); cancel() }()
+		failsafe.NewExecutor[int](rp15, rl15).WithContext(ctx).Get(func() (int, error) { return 1, nil })
+		cancel()
+		if events.Load() != 1 {
+			v.add(fmt.Sprintf("one attempt was refused by the rate limiter and a later one cancelled while waiting: OnRateLimitExceeded fired %d times", events.Load()))
+		}
+		v.count("ratelimit-event-after-cancelled-wait")
 	}
 	// the winner of a hedged execution keeps an uncancelled context (C09) also when later executions go through the same
 	// hedge policy instance: nothing of one execution's attempts may be visible to another execution
